@@ -13,16 +13,18 @@ query engine are part of the history (`sched`): their order and split are schedu
 (fan-in of shards, memtable flow vs. segment flow) and `LegitRemember` / `LegitShow` only say
 that they are a split of what the query returns at that moment.
 
-The full statement (`ShowEqQueryAlways`) is **false** of the code as modelled; four
-independent witnesses are proved below (three against the mark logic, one for a REMEMBER that
-runs while a flush is in its window) and replayed on the real engine by the `witness` stream
-of the check. `C14_show_eq_query_partial` states exactly what is needed:
+The full statement (`ShowEqQueryAlways`) is **false** of the code as modelled; two independent
+witnesses are proved below and replayed on the real engine by the `witness` stream of the
+check. `C14_show_eq_query_partial` states exactly what is needed:
 
 * (`EvAbove`) every event applied after a mark was left has `(ts, id)` lexicographically
-  above that mark, and
-* (`Covers`) every REMEMBER / SHOW leaves a mark that is not below any stored row — the code
-  takes the mark of the **last** batch appended, with the two maxima taken separately, so this
-  depends on arrival order; it holds whenever a run keeps at most one non-empty batch.
+  above that mark.
+
+That the mark a REMEMBER / SHOW leaves is never below a stored row is a theorem of the repaired
+code (`C14_mark_covers_stored_rows`; until commit 60e3c76 it was a second hypothesis and the
+subject of finding C14-mark-from-last-frame). Idempotence of SHOW and "each row once" hold for
+every legitimate history, with no hypothesis on the events. REMEMBER runs behind the same
+AwaitFlush barrier as SHOW (commit f1fe52c, finding C14-remember-in-flush-window).
 -/
 namespace Snel.Props.C14
 open Snel.Materialize List
@@ -71,10 +73,9 @@ theorem reach_of_okRun {s : St} (hs : Reach s) : ∀ {ops}, OkRun s ops → Reac
 /-! ## SHOW = QUERY -/
 
 /-- **Main theorem (partial).** After any history of STORE / placement changes / REMEMBER /
-SHOW in which (i) every applied event lies above the mark of every materialisation it belongs
-to and (ii) every REMEMBER and SHOW leaves a mark not below any stored row, every SHOW returns
-exactly the multiset of rows the live query returns at that moment.
-PARTIAL: hypotheses (i) and (ii) are not guaranteed by the code — see the `_fails` theorems. -/
+SHOW in which every applied event lies above the mark of every materialisation it belongs to,
+every SHOW returns exactly the multiset of rows the live query returns at that moment.
+PARTIAL: the hypothesis is not guaranteed by the code — see the `_fails` theorems. -/
 theorem C14_show_eq_query_partial (ops : List Op) (h : OkRun St.init ops) :
     ShowEqQuery (run St.init ops) := by
   intro n e sched rows he hl hrows
@@ -84,33 +85,25 @@ theorem C14_show_eq_query_partial (ops : List Op) (h : OkRun St.init ops) :
   rw [runQuery_none]
   exact show_rows_perm hi he hl
 
-/-- Hypothesis (i) holds under monotone arrival: the new event's second is not earlier and its
+/-- The mark a REMEMBER / SHOW leaves is never below a stored row — for every list of frames,
+in whatever order the batches arrived. -/
+theorem C14_mark_covers_stored_rows (frames : List (List Ev)) :
+    ∀ r ∈ frames.flatten, lexGt r.pos (sinkMark frames) = false :=
+  covers_always frames
+
+/-- The hypothesis holds under monotone arrival: the new event's second is not earlier and its
 id is larger than those of every event applied so far (one shard with monotone clocks; ids are
 never 0). -/
 theorem C14_monotone_arrival_ok {s : St} (hs : Reach s) {e : Ev} (hid : 0 < e.id)
     (hmono : ∀ r ∈ s.store.vis, r.ts ≤ e.ts ∧ r.id < e.id) : StepOk s (.store e) :=
   monotone_above (reach_inv hs) hid hmono
 
-/-- Hypothesis (ii) holds for a SHOW whose delta keeps at most one non-empty batch. -/
-theorem C14_single_batch_ok {s : St} (hs : Reach s) {n : Nat} {sched : List (List Ev)}
-    (hl : LegitShow s n sched)
-    (h1 : ∀ e, s.cat n = some e → (keptBatches (sinkMark e.frames) sched).length ≤ 1) :
-    StepOk s (.showM n sched) :=
-  ⟨hl, fun e he => single_batch_covers ((reach_inv hs).2 n e he) (h1 e he)⟩
-
-/-- … and for a REMEMBER whose initial run arrives as at most one non-empty batch. -/
-theorem C14_single_batch_remember_ok {s : St} {n : Nat} {q : Spec} {now : Nat}
-    {sched : List (List Ev)} (hl : LegitRemember s q sched) (h1 : (nonEmpty sched).length ≤ 1) :
-    StepOk s (.remember n q now sched) :=
-  ⟨hl, single_batch_covers_remember h1⟩
-
-/-- Monotone arrival, single-batch runs. -/
+/-- Monotone arrival; schedules only legitimate. -/
 def StepMono (s : St) : Op → Prop
   | .store e => 0 < e.id ∧ ∀ r ∈ s.store.vis, r.ts ≤ e.ts ∧ r.id < e.id
   | .relayout st => RelayoutOk s.store st
-  | .remember _ q _ sched => LegitRemember s q sched ∧ (nonEmpty sched).length ≤ 1
-  | .showM n sched => LegitShow s n sched ∧
-      ∀ e, s.cat n = some e → (keptBatches (sinkMark e.frames) sched).length ≤ 1
+  | .remember _ q _ sched => LegitRemember s q sched
+  | .showM n sched => LegitShow s n sched
 
 def MonoRun : St → List Op → Prop
   | _, [] => True
@@ -123,13 +116,12 @@ theorem okRun_of_monoRun {s : St} (hs : Reach s) : ∀ {ops}, MonoRun s ops → 
       cases op with
       | store e => exact C14_monotone_arrival_ok hs h.1.1 h.1.2
       | relayout st => exact h.1
-      | remember n q now sched => exact C14_single_batch_remember_ok h.1.1 h.1.2
-      | showM n sched => exact C14_single_batch_ok hs h.1.1 h.1.2
+      | remember n q now sched => exact h.1
+      | showM n sched => exact h.1
     exact ⟨hok, okRun_of_monoRun (Reach.step hs hok) h.2⟩
 
-/-- **The instance**: with monotone arrival (one shard, monotone clocks) and runs that deliver
-at most one non-empty batch, SHOW equals QUERY after every history, with no further
-hypothesis. -/
+/-- **The instance**: with monotone arrival (one shard, monotone clocks) SHOW equals QUERY after
+every history, whatever the order and split of the batches. -/
 theorem C14_show_eq_query_monotone (ops : List Op) (h : MonoRun St.init ops) :
     ShowEqQuery (run St.init ops) :=
   C14_show_eq_query_partial ops (okRun_of_monoRun Reach.init h)
@@ -141,16 +133,6 @@ def stores : List Op → List Ev
   | [] => []
   | .store e :: ops => e :: stores ops
   | _ :: ops => stores ops
-
-/-- Every REMEMBER / SHOW of the history keeps at most one non-empty batch. -/
-def StepSingle (s : St) : Op → Prop
-  | .remember _ _ _ sched => (nonEmpty sched).length ≤ 1
-  | .showM n sched => ∀ e, s.cat n = some e → (keptBatches (sinkMark e.frames) sched).length ≤ 1
-  | _ => True
-
-def SingleRun : St → List Op → Prop
-  | _, [] => True
-  | s, op :: ops => StepSingle s op ∧ SingleRun (step s op) ops
 
 theorem remember_store (s : St) (n : Nat) (q : Spec) (now : Nat) (sched : List (List Ev)) :
     (remember s n q now sched).1.store = s.store := by
@@ -165,9 +147,9 @@ def Before (r e : Ev) : Prop := r.ts ≤ e.ts ∧ r.id < e.id
 
 theorem monoRun_of_pairwise : ∀ (ops : List Op) (s : St) (pre : List Ev),
     s.store.vis.Perm pre → (pre ++ stores ops).Pairwise Before → (∀ e ∈ stores ops, 0 < e.id) →
-    LegitRun s ops → SingleRun s ops → MonoRun s ops
-  | [], _, _, _, _, _, _, _ => trivial
-  | op :: ops, s, pre, hp, hpw, hpos, hl, hs => by
+    LegitRun s ops → MonoRun s ops
+  | [], _, _, _, _, _, _ => trivial
+  | op :: ops, s, pre, hp, hpw, hpos, hl => by
     cases op with
     | store e =>
       simp only [stores] at hpw hpos
@@ -181,28 +163,28 @@ theorem monoRun_of_pairwise : ∀ (ops : List Op) (s : St) (pre : List Ev),
         exact (Perm.cons e hp').trans (perm_append_singleton e pre).symm
       refine ⟨⟨hpos e mem_cons_self, ?_⟩,
         monoRun_of_pairwise ops _ (pre ++ [e]) hvis hpw'
-          (fun x hx => hpos x (mem_cons_of_mem _ hx)) hl.2 hs.2⟩
+          (fun x hx => hpos x (mem_cons_of_mem _ hx)) hl.2⟩
       intro r hr
       have hr' : r ∈ pre := hp.mem_iff.mp hr
       exact (pairwise_append.mp hpw).2.2 r hr' e mem_cons_self
     | relayout st =>
       simp only [stores] at hpw hpos
-      exact ⟨hl.1, monoRun_of_pairwise ops _ pre (hl.1.1.trans hp) hpw hpos hl.2 hs.2⟩
+      exact ⟨hl.1, monoRun_of_pairwise ops _ pre (hl.1.1.trans hp) hpw hpos hl.2⟩
     | remember n q now sched =>
       simp only [stores] at hpw hpos
-      refine ⟨⟨hl.1, hs.1⟩, monoRun_of_pairwise ops _ pre ?_ hpw hpos hl.2 hs.2⟩
+      refine ⟨hl.1, monoRun_of_pairwise ops _ pre ?_ hpw hpos hl.2⟩
       simp only [step, remember_store]; exact hp
     | showM n sched =>
       simp only [stores] at hpw hpos
-      refine ⟨⟨hl.1, hs.1⟩, monoRun_of_pairwise ops _ pre ?_ hpw hpos hl.2 hs.2⟩
+      refine ⟨hl.1, monoRun_of_pairwise ops _ pre ?_ hpw hpos hl.2⟩
       simp only [step, showM_store]; exact hp
 
 /-- **One shard.** If the ids of the applied events are what ONE id generator lifetime produces
 (`Snel.IdGen.run`, the model tied to `event_id.rs` by C18) under any clock inside the id window,
-the handler seconds do not decrease in apply order, ids are non-zero, and every REMEMBER / SHOW
-keeps at most one batch, then SHOW equals QUERY after the history. No hypothesis about marks. -/
+the handler seconds do not decrease in apply order and ids are non-zero, then SHOW equals QUERY
+after the history — for every legitimate schedule of batches, no hypothesis about marks. -/
 theorem C14_show_eq_query_one_shard (ops : List Op) (clk : List Nat) (shard : Nat)
-    (hleg : LegitRun St.init ops) (hsingle : SingleRun St.init ops)
+    (hleg : LegitRun St.init ops)
     (hclk : ∀ r ∈ clk, Snel.IdGen.InRange r)
     (hids : (stores ops).map (·.id)
       = Snel.IdGen.run Snel.IdGen.Gen.init clk shard (stores ops).length)
@@ -217,7 +199,7 @@ theorem C14_show_eq_query_one_shard (ops : List Op) (clk : List Nat) (shard : Na
     exact hts.and hid
   apply C14_show_eq_query_monotone
   exact monoRun_of_pairwise ops St.init [] (by simp [St.init, Store.vis]) (by simpa using hpw)
-    hpos hleg hsingle
+    hpos hleg
 
 /-! ### Witnesses against the full statement -/
 
@@ -251,15 +233,16 @@ newer one first (memtable batch before segment batch). -/
 def histLastFrame : List Op :=
   [.store evQ, .store evP, .remember 0 qAll 20 [[evP], [evQ]]]
 
-/-- **Witness 2 (the mark is that of the last batch, not the maximum).** The mark left is
-`(5, 100)` although `(10, 300)` is stored; the next SHOW's delta returns P again: SHOW has
-three rows, QUERY two. One shard, monotone clocks. -/
-theorem C14_show_eq_query_last_frame_fails :
+/-- Regression case of the repaired finding C14-mark-from-last-frame: the mark left is the
+maximum `(10, 300)` although P's batch arrived first; the next SHOW keeps nothing and returns
+P and Q once each (before commit 60e3c76: mark `(5, 100)`, SHOW = P, Q, P). -/
+theorem C14_last_frame_regression :
     LegitRun St.init histLastFrame ∧
-    ∃ rows, (showM (run St.init histLastFrame) 0 [[evQ, evP]]).2 = some rows ∧
-      LegitShow (run St.init histLastFrame) 0 [[evQ, evP]] ∧
-      rows = [evP, evQ, evP] ∧ runQuery (run St.init histLastFrame).store qAll none = [evQ, evP] := by
-  refine ⟨by decide, [evP, evQ, evP], rfl, by decide, rfl, rfl⟩
+    ((run St.init histLastFrame).cat 0).map (·.mark) = some (some (10, 300)) ∧
+    LegitShow (run St.init histLastFrame) 0 [[evP]] ∧
+    (showM (run St.init histLastFrame) 0 [[evP]]).2 = some [evP, evQ] ∧
+    runQuery (run St.init histLastFrame).store qAll none = [evQ, evP] := by
+  refine ⟨by decide, by decide, by decide, rfl, rfl⟩
 
 def evR : Ev := { ts := 9, id := 50, shard := 0, key := 1, ctx := 0, x := 1 }
 def evS : Ev := { ts := 8, id := 70, shard := 1, key := 2, ctx := 1, x := 1 }
@@ -286,31 +269,30 @@ def evF1 : Ev := { ts := 3, id := 10, shard := 0, key := 1, ctx := 0, x := 1 }
 def evF2 : Ev := { ts := 3, id := 11, shard := 0, key := 2, ctx := 0, x := 1 }
 
 /-- Two STOREs fill the memtable; its flush has written the segment's files but not yet
-released the passive buffer (`Store.flushBegin`) when REMEMBER runs — REMEMBER sends no AwaitFlush
-barrier; then the flush finishes (`Store.flushEnd`). -/
+released the passive buffer (`Store.flushBegin`) when REMEMBER arrives; REMEMBER waits for the
+flush (`Store.flushEnd`, the state its initial run sees and the state afterwards). -/
 def histWindow : List Op :=
   [.store evF1, .store evF2,
    .relayout (Store.flushBegin { mem := [evF1, evF2], zones := [] } 0 9),
-   .remember 0 qAll 9 [[evF1, evF2], [evF1, evF2]],
+   .remember 0 qAll 9 [[evF1, evF2]],
    .relayout (Store.flushBegin { mem := [evF1, evF2], zones := [] } 0 9).flushEnd]
 
-/-- **Witness 4 (REMEMBER in the flush window).** The initial run reads every row of the
-rotated memtable twice (buffer and segment) and REMEMBER stores both copies — it neither waits
-for in-flight flushes as SHOW does nor de-duplicates on the event id as QUERY's response writer
-does. Every later SHOW returns four rows; QUERY returns two. The two halves of the flush compose
-to the model's atomic `flush`, which is a legitimate re-layout; the half-way state is not
-(`RelayoutOk` fails: the scan sees more rows than were applied), so the partial theorem does not
-cover it. -/
-theorem C14_remember_in_flush_window_fails :
+/-- Regression case of the repaired finding C14-remember-in-flush-window: in the window a plain
+scan sees every row twice (so the half-way state is not a legitimate re-layout), but the only
+legitimate schedule of REMEMBER — behind the barrier — holds each row once, and SHOW returns
+what QUERY returns. (Before commit f1fe52c the initial run read the window: four rows stored.) -/
+theorem C14_remember_waits_for_flush :
     (Store.flushBegin { mem := [evF1, evF2], zones := [] } 0 9).flushEnd
         = Store.flush { mem := [evF1, evF2], zones := [] } 0 9 ∧
     ¬ RelayoutOk { mem := [evF1, evF2], zones := [] }
         (Store.flushBegin { mem := [evF1, evF2], zones := [] } 0 9) ∧
-    LegitRemember (run St.init (histWindow.take 3)) qAll [[evF1, evF2], [evF1, evF2]] ∧
+    (runQuery (run St.init (histWindow.take 3)).store qAll none).map (·.key) = [1, 2, 1, 2] ∧
+    LegitRemember (run St.init (histWindow.take 3)) qAll [[evF1, evF2]] ∧
+    ¬ LegitRemember (run St.init (histWindow.take 3)) qAll [[evF1, evF2], [evF1, evF2]] ∧
     LegitShow (run St.init histWindow) 0 [[evF1, evF2]] ∧
-    ((showM (run St.init histWindow) 0 [[evF1, evF2]]).2.map (·.map (·.key))) = some [1, 2, 1, 2] ∧
+    ((showM (run St.init histWindow) 0 [[evF1, evF2]]).2.map (·.map (·.key))) = some [1, 2] ∧
     (queryAnswer (run St.init histWindow).store qAll).map (·.key) = [1, 2] := by
-  refine ⟨rfl, by decide, by decide, by decide, by decide, by decide⟩
+  refine ⟨rfl, by decide, by decide, by decide, by decide, by decide, by decide, by decide⟩
 
 /-- The two halves of a flush compose to the atomic flush of the model (nothing else in its
 window). -/
@@ -344,69 +326,181 @@ theorem C14_query_answer_eq (s : Store) (q : Spec)
   apply this
   exact (hn.sublist ((filter_sublist).map _))
 
-/-! ## Each event once -/
+/-! ## Invariants of every legitimate history (no hypothesis on the events) -/
 
-/-- Under the hypotheses of the partial theorem no row appears twice in one SHOW (events are
-applied once: the visible rows are pairwise distinct). -/
-theorem C14_each_once_partial (ops : List Op) (h : OkRun St.init ops)
-    (hn : (run St.init ops).store.vis.Nodup) {n : Nat} {e : Entry} {sched : List (List Ev)}
-    {rows : List Ev} (he : (run St.init ops).cat n = some e)
-    (hl : LegitShow (run St.init ops) n sched)
-    (hrows : (showM (run St.init ops) n sched).2 = some rows) : rows.Nodup := by
-  have hp := C14_show_eq_query_partial ops h n e sched rows he hl hrows
-  rw [runQuery_none] at hp
-  exact hp.symm.nodup (hn.filter _)
+theorem inv0_init : Inv0 St.init :=
+  ⟨by intro z hz; simp [St.init] at hz, rfl, by intro n e h; simp [St.init] at h⟩
 
-/-- Without them a row is shown twice although it was applied once (witness 2). -/
-theorem C14_each_once_fails :
-    ∃ ops n sched rows, LegitRun St.init ops ∧ (run St.init ops).store.vis.Nodup ∧
-      LegitShow (run St.init ops) n sched ∧
-      (showM (run St.init ops) n sched).2 = some rows ∧ ¬ rows.Nodup :=
-  ⟨histLastFrame, 0, [[evQ, evP]], [evP, evQ, evP], by decide, by decide, by decide, rfl, by decide⟩
+theorem inv0_step {s : St} (hi : Inv0 s) {op : Op} (hl : StepLegit s op) : Inv0 (step s op) := by
+  obtain ⟨ht, hp, hm⟩ := hi
+  cases op with
+  | store e => exact ⟨ht, hp, hm⟩
+  | relayout st => exact ⟨hl.2.1, hl.2.2, hm⟩
+  | remember n q now sched =>
+    simp only [step]
+    cases he : s.cat n with
+    | some e => rw [remember_dup he]; exact ⟨ht, hp, hm⟩
+    | none =>
+      rw [remember_new he]
+      refine ⟨ht, hp, ?_⟩
+      intro k e' hk
+      simp only [setCat] at hk
+      by_cases hkn : k = n
+      · simp only [hkn, if_true, Option.some.injEq] at hk; subst hk; rfl
+      · simp only [hkn, if_false] at hk; exact hm k e' hk
+  | showM n sched =>
+    simp only [step]
+    cases he : s.cat n with
+    | none =>
+      have : (showM s n sched).1 = s := by simp [showM, he]
+      rw [this]; exact ⟨ht, hp, hm⟩
+    | some e =>
+      rw [showM_cat he]
+      refine ⟨ht, hp, ?_⟩
+      intro k e' hk
+      simp only [setCat] at hk
+      by_cases hkn : k = n
+      · simp only [hkn, if_true, Option.some.injEq] at hk; subst hk
+        exact markOk_after_show (hm n e he) sched
+      · simp only [hkn, if_false] at hk; exact hm k e' hk
+
+theorem inv0_run {s : St} (hi : Inv0 s) : ∀ {ops}, LegitRun s ops → Inv0 (run s ops)
+  | [], _ => hi
+  | op :: ops, h => by
+    simp only [run, foldl_cons]
+    exact inv0_run (inv0_step hi h.1) h.2
 
 /-! ## Idempotence -/
 
-/-- SHOW twice with no new data returns the same rows (the same list, in the same order),
-provided the first SHOW left a covering mark. PARTIAL: see `C14_idempotent_fails`. -/
-theorem C14_idempotent_partial (ops : List Op) (h : OkRun St.init ops) {n : Nat} {e : Entry}
+/-- **SHOW twice with no new data returns the same rows** (the same list, in the same order) —
+after every legitimate history, whatever events were applied and however the batches of either
+SHOW were split and ordered. Full strength since commit 60e3c76 (the mark is a maximum). -/
+theorem C14_idempotent (ops : List Op) (h : LegitRun St.init ops) {n : Nat} {e : Entry}
     {sched₁ sched₂ : List (List Ev)}
     (he : (run St.init ops).cat n = some e)
     (hl₁ : LegitShow (run St.init ops) n sched₁)
-    (hc : Covers (e.frames ++ keptBatches (sinkMark e.frames) sched₁))
     (hl₂ : LegitShow (showM (run St.init ops) n sched₁).1 n sched₂) :
     (showM (showM (run St.init ops) n sched₁).1 n sched₂).2 = (showM (run St.init ops) n sched₁).2 := by
-  have hr := reach_of_okRun Reach.init h
-  have hi := reach_inv hr
-  have hok : StepOk (run St.init ops) (.showM n sched₁) :=
-    ⟨hl₁, fun e' he' => by rw [he] at he'; cases he'; exact hc⟩
-  have hi' : Inv (showM (run St.init ops) n sched₁).1 := reach_inv (Reach.step hr hok)
+  obtain ⟨ht, hp, hm⟩ := inv0_run inv0_init h
   have he' : (showM (run St.init ops) n sched₁).1.cat n = some (e.afterShow sched₁) := by
     rw [showM_cat he]; simp [setCat]
-  have hset : Settled (showM (run St.init ops) n sched₁).1.store (e.afterShow sched₁) := by
-    intro r hr' hq
-    rw [showM_cat he] at hr'
-    exact settled_after_show hi he hl₁ hc r hr' hq
-  have hk := kept_nil_of_settled hi' he' hset hl₂
+  have hk := second_show_keeps_nothing ht hp he (hm n e he) hl₁ hl₂
   rw [showM_rows he', showM_rows he, hk]
   simp
 
 def evU : Ev := { ts := 7, id := 200, shard := 2, key := 3, ctx := 2, x := 1 }
 
-/-- P (ts 10), Q (ts 5), U (ts 7) on three shards; REMEMBER receives Q's batch last. -/
-def histIdem : List Op :=
-  [.store evP, .store evQ, .store evU, .remember 0 qAll 20 [[evP], [evU], [evQ]]]
+/-- Regression case (the former `C14_idempotent_fails`): P (ts 10), Q (ts 5), U (ts 7) on three
+shards, REMEMBER receives Q's batch last; the mark is `(10, 300)` all the same and two SHOWs in a
+row return the three rows. -/
+theorem C14_idempotent_regression :
+    let ops : List Op := [.store evP, .store evQ, .store evU, .remember 0 qAll 20 [[evP], [evU], [evQ]]]
+    LegitRun St.init ops ∧ LegitShow (run St.init ops) 0 [[evP]] ∧
+    (showM (run St.init ops) 0 [[evP]]).2 = some [evP, evU, evQ] ∧
+    (showM (showM (run St.init ops) 0 [[evP]]).1 0 [[evP]]).2 = some [evP, evU, evQ] := by
+  refine ⟨by decide, by decide, rfl, rfl⟩
 
-/-- The full statement is false: after REMEMBER left the mark of its last batch `(5,100)`, the
-first SHOW re-appends P then U (mark `(7,200)`), the second SHOW re-appends P once more: five
-rows, then six, with no STORE in between. -/
-theorem C14_idempotent_fails :
-    LegitRun St.init histIdem ∧
-    LegitShow (run St.init histIdem) 0 [[evP], [evQ], [evU]] ∧
-    LegitShow (showM (run St.init histIdem) 0 [[evP], [evQ], [evU]]).1 0 [[evP], [evU]] ∧
-    ((showM (run St.init histIdem) 0 [[evP], [evQ], [evU]]).2.map length) = some 5 ∧
-    ((showM (showM (run St.init histIdem) 0 [[evP], [evQ], [evU]]).1 0 [[evP], [evU]]).2.map length)
-      = some 6 := by
-  refine ⟨by decide, by decide, by decide, by decide, by decide⟩
+/-! ## Each event once -/
+
+/-- At every state of the history the visible rows are pairwise distinct (events are applied
+once, placement changes do not duplicate rows). -/
+def NodupRun : St → List Op → Prop
+  | s, [] => s.store.vis.Nodup
+  | s, op :: ops => s.store.vis.Nodup ∧ NodupRun (step s op) ops
+
+/-- Stored rows are distinct and visible. -/
+def FramesOk (s : St) : Prop :=
+  ∀ n e, s.cat n = some e → e.frames.flatten.Nodup ∧ ∀ r ∈ e.frames.flatten, r ∈ s.store.vis
+
+theorem show_rows_nodup {s : St} (hi : Inv0 s) (hf : FramesOk s) (hn : s.store.vis.Nodup)
+    {n : Nat} {e : Entry} (he : s.cat n = some e) {sched : List (List Ev)}
+    (hl : LegitShow s n sched) :
+    (e.frames.flatten ++ (keptBatches (sinkMark e.frames) sched).flatten).Nodup ∧
+    ∀ r ∈ e.frames.flatten ++ (keptBatches (sinkMark e.frames) sched).flatten, r ∈ s.store.vis := by
+  obtain ⟨ht, hp, hm⟩ := hi
+  have hk := kept_perm ht hp he (hm n e he) hl
+  obtain ⟨hfn, hfv⟩ := hf n e he
+  refine ⟨?_, ?_⟩
+  · rw [nodup_append]
+    refine ⟨hfn, hk.symm.nodup (hn.filter _), ?_⟩
+    intro a ha b hb hab
+    subst hab
+    have h1 := covers_always e.frames a ha
+    have h2 := (mem_filter.mp (hk.mem_iff.mp hb)).2
+    simp [h1] at h2
+  · intro r hr
+    rcases mem_append.mp hr with hr | hr
+    · exact hfv r hr
+    · exact (mem_filter.mp (hk.mem_iff.mp hr)).1
+
+theorem framesOk_step {s : St} (hi : Inv0 s) (hf : FramesOk s) (hn : s.store.vis.Nodup)
+    {op : Op} (hl : StepLegit s op) : FramesOk (step s op) := by
+  cases op with
+  | store e =>
+    intro n ent hn'
+    obtain ⟨h1, h2⟩ := hf n ent hn'
+    refine ⟨h1, fun r hr => ?_⟩
+    have := h2 r hr
+    simp only [step, Store.vis, mem_append] at this ⊢
+    rcases this with (h | h) | h
+    · exact Or.inl (Or.inl (Or.inl h))
+    · exact Or.inl (Or.inr h)
+    · exact Or.inr h
+  | relayout st =>
+    intro n ent hn'
+    obtain ⟨h1, h2⟩ := hf n ent hn'
+    exact ⟨h1, fun r hr => hl.1.mem_iff.mpr (h2 r hr)⟩
+  | remember n q now sched =>
+    simp only [step]
+    cases he : s.cat n with
+    | some e => rw [remember_dup he]; exact hf
+    | none =>
+      rw [remember_new he]
+      intro k e' hk
+      simp only [setCat] at hk
+      by_cases hkn : k = n
+      · simp only [hkn, if_true, Option.some.injEq] at hk; subst hk
+        rw [initial_frames, flatten_nonEmpty]
+        have hl' : sched.flatten.Perm (s.store.vis.filter q.matches) := by
+          have h0 : LegitRemember s q sched := hl
+          unfold LegitRemember at h0
+          rwa [flushEnd_eq hi.2.1, runQuery_none] at h0
+        exact ⟨hl'.symm.nodup (hn.filter _), fun r hr => (mem_filter.mp (hl'.mem_iff.mp hr)).1⟩
+      · simp only [hkn, if_false] at hk; exact hf k e' hk
+  | showM n sched =>
+    simp only [step]
+    cases he : s.cat n with
+    | none => simpa [showM, he] using hf
+    | some e =>
+      rw [showM_cat he]
+      intro k e' hk
+      simp only [setCat] at hk
+      by_cases hkn : k = n
+      · simp only [hkn, if_true, Option.some.injEq] at hk; subst hk
+        rw [afterShow_frames, flatten_append]
+        exact show_rows_nodup hi hf hn he hl
+      · simp only [hkn, if_false] at hk; exact hf k e' hk
+
+theorem framesOk_run : ∀ (ops : List Op) (s : St), Inv0 s → FramesOk s → LegitRun s ops →
+    NodupRun s ops → Inv0 (run s ops) ∧ FramesOk (run s ops) ∧ (run s ops).store.vis.Nodup
+  | [], _, hi, hf, _, hn => ⟨hi, hf, hn⟩
+  | op :: ops, s, hi, hf, hl, hn => by
+    simp only [run, foldl_cons]
+    exact framesOk_run ops (step s op) (inv0_step hi hl.1) (framesOk_step hi hf hn.1 hl.1) hl.2 hn.2
+
+/-- **Each event once**: after every legitimate history in which the visible rows stay
+pairwise distinct, no row appears twice in a SHOW — no hypothesis on timestamps, ids or batch
+order. Full strength since commits 60e3c76 / f1fe52c. -/
+theorem C14_each_once (ops : List Op) (h : LegitRun St.init ops) (hn : NodupRun St.init ops)
+    {n : Nat} {e : Entry} {sched : List (List Ev)} {rows : List Ev}
+    (he : (run St.init ops).cat n = some e)
+    (hl : LegitShow (run St.init ops) n sched)
+    (hrows : (showM (run St.init ops) n sched).2 = some rows) : rows.Nodup := by
+  obtain ⟨hi, hf, hnd⟩ := framesOk_run ops St.init inv0_init
+    (by intro n e h; simp [St.init] at h) h hn
+  rw [showM_rows he] at hrows
+  cases hrows
+  exact (show_rows_nodup hi hf hnd he hl).1
 
 /-! ## REMEMBER under an existing name -/
 
@@ -508,15 +602,17 @@ theorem C14_zone_drop_created_at_fails :
 /-- The model's flush, compaction round and backdating are legitimate placement changes
 (hypotheses: the flush clock is not more than a second behind the stamps of the rows it writes;
 compaction's file clock is not behind the files it reads). -/
-theorem C14_flush_is_relayout (s : Store) (hs : s.Truthful) (shard now : Nat)
-    (hclock : ∀ r ∈ s.mem, r.ts ≤ now + 1) : RelayoutOk s (s.flush shard now) := flush_ok hs hclock
+theorem C14_flush_is_relayout (s : Store) (hs : s.Truthful) (hp : s.passive = []) (shard now : Nat)
+    (hclock : ∀ r ∈ s.mem, r.ts ≤ now + 1) : RelayoutOk s (s.flush shard now) :=
+  flush_ok hs hp hclock
 
-theorem C14_compact_is_relayout (s : Store) (hs : s.Truthful) (shard now : Nat)
-    (hclock : ∀ z ∈ s.zones, z.mtime ≤ now) : RelayoutOk s (s.compact shard now) :=
-  compact_ok hs hclock
+theorem C14_compact_is_relayout (s : Store) (hs : s.Truthful) (hp : s.passive = [])
+    (shard now : Nat) (hclock : ∀ z ∈ s.zones, z.mtime ≤ now) : RelayoutOk s (s.compact shard now) :=
+  compact_ok hs hp hclock
 
-theorem C14_backdate_is_relayout (s : Store) (hs : s.Truthful) : RelayoutOk s s.backdate :=
-  backdate_ok hs
+theorem C14_backdate_is_relayout (s : Store) (hs : s.Truthful) (hp : s.passive = []) :
+    RelayoutOk s s.backdate :=
+  backdate_ok hs hp
 
 /-! ## The AwaitFlush barrier -/
 
@@ -562,15 +658,22 @@ example :
        .relayout (Store.flush { mem := [a, b], zones := [] } 0 6),
        .store c, .showM 0 [[a, b, c]], .store d] := by
   intro a b c d
-  refine ⟨⟨by decide, by decide⟩, ⟨by decide, by decide⟩, ⟨by decide, by decide⟩,
-    ⟨by decide, by decide⟩, ⟨by decide, by decide⟩, ⟨by decide, ?_⟩, ⟨by decide, by decide⟩, trivial⟩
-  intro e he
-  have : e = (Entry.initial qAll 5 [[a, b]]) := by
-    have h0 : (step (step (step (step (step St.init (.store a)) (.store b))
-      (.remember 0 qAll 5 [[a, b]])) (.relayout (Store.flush { mem := [a, b], zones := [] } 0 6)))
-      (.store c)).cat 0 = some (Entry.initial qAll 5 [[a, b]]) := rfl
-    rw [h0] at he; exact (Option.some.inj he).symm
-  subst this
+  refine ⟨⟨by decide, by decide⟩, ⟨by decide, by decide⟩,
+    (by show LegitRemember _ _ _; decide), (by show RelayoutOk _ _; decide),
+    ⟨by decide, by decide⟩, (by simp only [StepMono]; decide), ⟨by decide, by decide⟩, trivial⟩
+
+/-- … and the same history meets `NodupRun` (hypothesis of `C14_each_once`). -/
+example :
+    let a : Ev := { ts := 3, id := 10, shard := 0, key := 1, ctx := 0, x := 1 }
+    let b : Ev := { ts := 3, id := 11, shard := 0, key := 2, ctx := 0, x := 1 }
+    let c : Ev := { ts := 4, id := 12, shard := 0, key := 3, ctx := 0, x := 1 }
+    NodupRun St.init
+      [.store a, .store b, .remember 0 qAll 5 [[a, b]],
+       .relayout (Store.flush { mem := [a, b], zones := [] } 0 6),
+       .store c, .showM 0 [[a, b, c]]] := by
+  intro a b c
+  refine ⟨by decide, by decide, by decide, by decide, by decide, by decide, ?_⟩
+  show List.Nodup _
   decide
 
 end Snel.Props.C14
